@@ -70,6 +70,17 @@ theorem fact_signature_verifier :
       "!jwx.AlgorithmFitsKey(jwa.SignatureAlgorithm(transaction.SigningAlgorithm()), signingKey)"] ∧
     Facts.C06.keyResolverConds = ["err == nil", "err != resolver.ErrNotFound", "err != nil", "err != nil", "vm == nil"] := by decide
 
+/-- the closure `state.Add` hands to `s.db.Write` (= `writeBody` / `writeBodyP` of the model), statement by statement: presence
+    re-check first, `txAdded` before anything is written, payload hash / writePayload / saveEvent(payload) / marker, THEN
+    `graph.add` whose error — `errRootAlreadyExists` included — is returned as it is (⇒ rollback of what was written before it),
+    saveEvent(tx), updateState; and the options of the call: the rollback handler reloads with a fresh context, unlock after
+    commit, the notifications and the transaction counter only under `txAdded`, the write lock. -/
+theorem fact_add_write_body :
+    Facts.C06.body_addWrite =
+      ["if s.graph.isPresent(tx, transaction.Ref())", "return nil", "txAdded = true", "if payload != nil", "emitPayloadEvent = true", "payloadHash := hash.SHA256Sum(payload)", "if !transaction.PayloadHash().Equals(payloadHash)", "return errors.New(\"tx.PayloadHash does not match hash of payload\")", "err := s.payloadStore.writePayload(tx, payloadHash, payload)", "if err != nil", "return err", "err := s.saveEvent(tx, payloadEvent)", "if err != nil", "return err", "err := markPayloadEventSaved(tx, transaction.Ref())", "if err != nil", "return err", "err := s.graph.add(tx, transaction)", "if err != nil", "return err", "err := s.saveEvent(tx, txEvent)", "if err != nil", "return err", "return s.updateState(tx, transaction)"] ∧
+    Facts.C06.addWriteOptions =
+      ["stoabs.OnRollback(func() { log.Logger().Warn(\"Reloading the XOR and IBLT trees due to a DB transaction Rollback\") s.loadState(context.Background()) })", "stoabs.AfterCommit(unlock)", "stoabs.AfterCommit(func() { if txAdded { s.notify(txEvent) if emitPayloadEvent { s.notify(payloadEvent) } } })", "stoabs.AfterCommit(func() { if txAdded { s.transactionCount.Inc() } })", "stoabs.WithWriteLock()"] := ⟨rfl, rfl⟩
+
 /-- `jwx.AlgorithmFitsKey` as the model has it: the curve switch (regenerated curve names and `jwa` constants) is the model's
     table, its default is `true`; the type switch has exactly the clauses `KeyShape` distinguishes (exact source text); and
     the verifier's body, statement by statement: `signingKey` is assigned in BOTH branches (embedded / resolved) before the
